@@ -153,7 +153,9 @@ def main() -> int:
             violations.append(f)
 
     floors_failed = []
-    for cls, frac in getattr(mod, "FLOORS", {}).items():
+    # floors only judge a complete, quiet run: a failing part stops early (and shrinking
+    # adds evaluations), which would turn a detected violation into a harness error
+    for cls, frac in ({} if (args.part or violations) else getattr(mod, "FLOORS", {})).items():
         if evaluations and classes.get(cls, 0) < frac * evaluations:
             floors_failed.append(f"class {cls}: {classes.get(cls, 0)} < {frac}*{evaluations}")
 
